@@ -160,9 +160,17 @@ def run(res, tier, seed, widen=1):
         groups.append(g)
     _fmt(res, groups, "format")
     pairs = []
+    from han.obis import Obis as _Obis
     for g in groups[:1500]:
         s = rng.choice([fmt_reduced(g), fmt_reduced(groups[rng.randrange(len(groups))]), "x", ".".join(str(x or 0) for x in g)])
         pairs.append((g, s))
+        # the object's OWN renderings (they drop optional groups that are 0): equal only if that text parses to the same groups
+        try:
+            own = [str(_Obis(g)), _Obis(g).to_reduced_str()]
+        except Exception:  # noqa
+            own = []
+        for t in own:
+            pairs.append((g, t))
     _eq(res, pairs, "eq_string")
 
 
